@@ -25,13 +25,30 @@ class Namespace(typing.Generic[T]):
     inner_nsp: list["Namespace"]
 
     loop_stack: list["oneliner.pending_nodes._PendingLoop"]
-    comp_stack: list["oneliner.expr_transform.PendingComp"]
+    # the lambdas and comprehensions whose bodies are being transformed
+    scope_stack: list["oneliner.expr_transform.PendingScope"]
 
     def __init__(self, symt: T, stack: list["Namespace"]):
         self.loop_stack = []
-        self.comp_stack = []
+        self.scope_stack = []
         self.inner_nsp = []
         self.symt = symt
+
+    def bound_in_inner_scope(self, name: str) -> bool:
+        """
+        whether the name is a parameter of a lambda or a target of a
+        comprehension that encloses the expression being transformed
+        """
+        return any(
+            scope.active and name in scope.bound_names for scope in self.scope_stack
+        )
+
+    def in_inner_scope(self) -> bool:
+        """
+        whether the expression being transformed belongs to the body of
+        a lambda or a comprehension
+        """
+        return any(scope.active for scope in self.scope_stack)
 
     def get_assign(self, name: str, value_expr: expr) -> expr:
         """
@@ -182,9 +199,8 @@ class NamespaceFunction(Namespace[symtable.Function]):
             )
 
     def get_load_name(self, name: str) -> expr:
-        for comp in self.comp_stack:
-            if name in comp.target_names:
-                return Name(id=name, ctx=Load())
+        if self.bound_in_inner_scope(name):
+            return Name(id=name, ctx=Load())
 
         if name in self.inner_nonlocal_names:
             return Subscript(
@@ -282,14 +298,19 @@ class NamespaceClass(Namespace[symtable.Class]):
             )
 
     def get_load_name(self, name: str) -> expr:
-        for comp in self.comp_stack:
-            if name in comp.target_names:
-                return Name(id=name, ctx=Load())
-
-        if name in self.globals_used_in_comp:
+        if self.bound_in_inner_scope(name):
             return Name(id=name, ctx=Load())
 
-        symbol = self.symt.lookup(name)
+        if self.in_inner_scope():
+            # the body of a lambda or a comprehension does not see the class
+            # members: the name is looked up like in a function nested here
+            return self._load_from_enclosing(name)
+
+        try:
+            symbol = self.symt.lookup(name)
+        except KeyError:
+            # a name that only lambdas/comprehensions of the class body know
+            return Name(id=name, ctx=Load())
         if name in self.outer_nonlocal_map:
             outer = self.outer_nonlocal_map[name]
             return Subscript(
@@ -306,6 +327,36 @@ class NamespaceClass(Namespace[symtable.Class]):
                 slice=Constant(value=name),
                 ctx=Load(),
             )
+
+    def _load_from_enclosing(self, name: str) -> expr:
+        outer = self.outer_nsp
+        while not isinstance(outer, NamespaceGlobal):
+            if isinstance(outer, NamespaceFunction):
+                try:
+                    symbol = outer.symt.lookup(name)
+                except KeyError:
+                    symbol = None
+                if symbol is None:
+                    pass
+                elif symbol.is_local():
+                    if name in outer.inner_nonlocal_names:
+                        return Subscript(
+                            value=outer.nonlocal_dict_expr,
+                            slice=Constant(value=name),
+                            ctx=Load(),
+                        )
+                    break
+                elif name in outer.outer_nonlocal_map:
+                    origin = outer.outer_nonlocal_map[name]
+                    return Subscript(
+                        value=origin.nonlocal_dict_expr,
+                        slice=Constant(value=name),
+                        ctx=Load(),
+                    )
+                else:  # global in the enclosing function
+                    break
+            outer = outer.outer_nsp
+        return Name(id=name, ctx=Load())
 
 
 if sys.version_info < (3, 12):
